@@ -206,6 +206,26 @@ def run(ctx: core.Ctx):
         if not ok:
             ctx.fail(".dekad accessor", dict(time=str(t)), {k: str(v[i]) for k, v in cols.items()}, "element-wise equal to the scalar class")
     ctx.count("accessor elements", len(times))
+    # time axes of other resolutions (NumPy day / second / millisecond arrays, also outside the nanosecond range of pandas)
+    for unit in ("D", "s", "ms", "us"):
+        days = sorted(rng.sample(range(693596, 740000), 40)) + ([rng.randrange(1, 500000) for _ in range(6)] if unit != "us" else [])
+        arr = np.array([np.datetime64(date.fromordinal(o).isoformat(), unit) for o in sorted(set(days))])
+        try:
+            da2 = xr.DataArray(np.arange(len(arr)), dims=("time",), coords={"time": arr})
+            acc2 = da2.time.dekad
+            raw2, lab2 = acc2.raw.values, acc2.label.values
+        except Exception as e:  # noqa: BLE001
+            ctx.count(f"accessor on datetime64[{unit}] axis not supported by xarray/pandas: {type(e).__name__}")
+            continue
+        for i, v in enumerate(arr):
+            d0 = v.astype("datetime64[D]").astype(object)
+            dk = Dekad(d0)
+            ctx.evaluations += 1
+            if not (raw2[i] == dk.raw and lab2[i] == str(dk)):
+                ctx.fail(".dekad accessor", dict(time=str(v), axis_dtype=f"datetime64[{unit}]", position=i), dict(raw=int(raw2[i]), label=str(lab2[i])), dict(raw=dk.raw, label=str(dk)),
+                         note="element-wise equal to the scalar class, whatever the resolution of the time axis")
+                break
+        ctx.count(f"accessor elements, datetime64[{unit}] axis", len(arr))
     ctx.trusted += ["harness/translate_dekad.py (AST -> Lean translator)", "Hdc/Model/PyDate.lean (model of CPython datetime, validated against CPython)",
                     "native model driver", "harness/props/c11.py oracle"]
 
